@@ -133,7 +133,7 @@ Ltac prefix_run :=
     cbn [bind fst snd];
     rewrite exec_S;
     rewrite run_stmts_cons;
-    match goal with |- context [seq_out (exec_stmt ?t ?a ?es ?b ?c ?d ?e ?f) _] => RUNF (exec_stmt t a es b c d e f) end;
+    match goal with |- context [seq_out (exec_stmt ?t ?rm ?a ?es ?b ?c ?d ?e ?f) _] => RUNF (exec_stmt t rm a es b c d e f) end;
     cbn [seq_out bind fst snd];
     rewrite run_stmts_cons; cbn [exec_stmt];
     match goal with |- context [eval Ga 98 ?c ?r ?w] => RUNF (eval Ga 98 c r w) end;
